@@ -76,13 +76,16 @@ def runTranspose (kv : List (String × String)) : String := Id.run do
   let nC := (getN kv "nc").getD 1
   let ex := (getN kv "ex").getD 0
   let a : Nat → Fp := fun k => if ex == 0 then Fp.ofTok 1 k else Fp.ofTok 1 k + Fp.ofTok 2 k
-  let ws := Transpose.transposeWrites cfg sz nR nC a (fun _ _ _ => 0) (fun _ _ _ => 0) M N
+  let staged := (getS kv "api") == some "mapassign"
+  let ws := if staged then Transpose.mapAssignWrites cfg sz nR nC a (fun _ _ _ => 0) (fun _ _ _ => 0) (fun _ => 0) M N
+            else Transpose.transposeWrites cfg sz nR nC a (fun _ _ _ => 0) (fun _ _ _ => 0) M N
   let rd := Transpose.transposeReads cfg sz nR nC M N
   let (mem, oob, wseq) := runStores14 (M * N) (fun p => Fp.ofTok 0 p) ws
   let roob := (rd.filter (fun r => r ≥ M * N)).length
   let (rn, V) := match Transpose.route cfg with
     | .plain => ("plain", 1)
     | .blocked => ("blocked", cfg.native.lanes sz)
+  let rn := if staged then rn ++ "+copy" else rn
   return s!"route={rn} V={V} VAL={hex (digest14 mem)} WSEQ={hex wseq} NW={ws.length} RDA={hex (hashNats 0 (sortDedup rd))} RSEQ={hex (hashNats 0 rd)} MOOB={oob + roob}"
 
 end Fastor.Driver
